@@ -334,6 +334,11 @@ type world struct {
 	accSeen         map[string]bool
 }
 
+// oddInputsInPlay: this run feeds (or has built objects from) harness-perturbed, possibly illegal encodings. C19 says
+// nothing about panics; a constructor or accessor that panics on such an input writes nowhere and shares nothing, so it
+// is recorded like a panic of an operation on a lenient primitive.
+func (w *world) oddInputsInPlay() bool { return w.chainOdd || w.oddKeys }
+
 func (w *world) catch(op string) {
 	if p := recover(); p != nil {
 		if _, ok := p.(abortB); ok {
@@ -343,7 +348,7 @@ func (w *world) catch(op string) {
 		if s == "rapid.stopTest" || s == "rapid.invalidData" {
 			panic(p)
 		}
-		if w.tolerate {
+		if w.tolerate || w.oddInputsInPlay() {
 			// An operation of a primitive whose constructor accepted an unusual (possibly illegal) encoding. That the
 			// constructor did not refuse it, and that the operation panics instead of failing, is not what C19 is
 			// about: recorded (both worlds must agree), listed in the evidence, not raised.
